@@ -7,10 +7,10 @@ import os
 
 from vcommon import Prop, REPO, load_corpus
 import gen_c14
-from gen_c14 import OPS, F_OPS, fill_args, OBS_OPS, CELL_OPS, CELL_FORMS, INTERRUPT_OPS, INIT_OPS, PRE_OPS
+from gen_c14 import OPS, F_OPS, fill_args, OBS_OPS, CELL_OPS, CELL_FORMS, INTERRUPT_OPS, INIT_OPS, PRE_OPS, LOAD_NOFD
 
 # keys of the shell snapshot that are the importer's own handle, not a patched IPython attribute
-HANDLES = {"app.auto_importer", "ip._auto_importer"}
+HANDLES = {"app.auto_importer", "ip._auto_importer", "ip._pyflyby_dummy_app"}     # (the last: fixes/C14-H3.diff)
 # keys IPython itself changes while running cells / completing / managing extensions
 IPY_NOISE = {"Completer.matches", "extension_manager.loaded",
              "displayhook._", "displayhook.__", "displayhook.___"}      # the last results, when they are tuples / lists
@@ -28,7 +28,10 @@ INTERRUPT_CLASS = {"run_kbint": "KeyboardInterrupt", "run_sysexit": "SystemExit"
 #  sysexit_interrupts  _try_import lets SystemExit through (before 84ecc12 "an import that calls sys.exit() is a failed
 #                      import"); after it such a cell is an ordinary failed import: NameError as in plain IPython, nothing demanded
 #  embedded_fresh      embedded shells get a new importer per call (finding D3-embedded; repaired by fixes/C14-H3.diff)
-TREE = {"sysexit_interrupts": True, "embedded_fresh": True}
+#  load_atomic         load_ext with a sys.stderr without fileno() still records the extension (fixes/C14-H2.diff); on a tree
+#                      where it does not (finding C14-H2) the model, which describes the atomic load, is not compared on
+#                      histories that contain such a load: the oracle judges them
+TREE = {"sysexit_interrupts": True, "embedded_fresh": True, "load_atomic": False}
 
 JP_ORDER = [n for n, _ in gen_c14.JOINPOINTS]
 # snapshot keys of the hook lists a third party may rebind / extend
@@ -106,7 +109,7 @@ def model_ops(cfg, ops):
             mops.append(["enable", True, fail])
         elif op == "disable":
             mops.append(["disable"])
-        elif op == "load_ext":
+        elif op in ("load_ext", LOAD_NOFD):
             mops.append(["loadExt", fail])
         elif op == "unload_ext":
             mops.append(["unloadExt"])
@@ -186,7 +189,7 @@ def ref_run(config, ops):
                     errored = True
             if op == "initialize_ext":
                 load()
-        elif op == "load_ext":
+        elif op in ("load_ext", LOAD_NOFD):
             load()
         elif op == "unload_ext":
             if loaded:
@@ -370,6 +373,8 @@ class C14(Prop):
         r = self.lab.run("embedded", [dict(kind="c14", config="embedded", ops=fill_args(["enable", "disable"]))])[0]
         TREE["embedded_fresh"] = bool(r["steps"][-1]["mv"]["hl"]["ast_transformers"]
                                       and any(e[0] == "pf" for e in r["steps"][-1]["mv"]["hl"]["ast_transformers"]))
+        r = self.lab.run("terminal", [dict(kind="c14", config="terminal", ops=fill_args([LOAD_NOFD]))])[0]
+        TREE["load_atomic"] = bool(r["steps"][-1]["loaded"]) and not r["steps"][-1]["escaped"]
         self._variant.update(TREE)
 
     def _prefetch(self):
@@ -418,6 +423,13 @@ class C14(Prop):
                         ["enable", "enable", "disable", "enable", "disable", "run_cell"],
                         ["enable_again", "reload_ext", "run_cell", "unload_ext", "run_cell"]):
                 out.append(dict(config=cfg, ops=ops))
+        # hunt 2: load_ext while sys.stderr has no fileno() (C14-H2); embedded shells through the extension manager (C14-H3)
+        for ops in ([LOAD_NOFD, "unload_ext", "run_cell"], [LOAD_NOFD, "reload_ext", "unload_ext", "complete"],
+                    ["enable", LOAD_NOFD, "disable", "run_cell"], [LOAD_NOFD, LOAD_NOFD, "unload_ext", "load_ext", "unload_ext"]):
+            out.append(dict(config="terminal", ops=ops))
+        for ops in (["load_ext", "reload_ext", "unload_ext", "run_cell", "reload_ext", "unload_ext"],
+                    ["enable", "disable", "enable", "run_cell", "disable", "complete"]):
+            out.append(dict(config="embedded", ops=ops))
         # third-party steps between (and around) enable and disable
         for f in F_OPS:
             for ops in (["enable", f, "disable", "run_cell"], [f, "enable", "run_cell", "disable"],
@@ -496,6 +508,8 @@ class C14(Prop):
             ops = gen_c14.add_errors_and_removals(rng, ops)
         if cfg == "terminal" and rng.random() < 0.6:
             ops = gen_c14.vary_cells(rng, ops)
+        if cfg == "terminal":
+            ops = gen_c14.vary_loads(rng, ops)
         return self._plan(dict(config=cfg, ops=ops))
 
     # -- implementation ----------------------------------------------------------
@@ -537,7 +551,7 @@ class C14(Prop):
                 F("an exception escaped a public entry point", i, escaped=st["escaped"])
             changed = {k: v for k, v in st["changed"].items() if k not in HANDLES and k not in IPY_NOISE}
             # --- idempotence: an op the reference machine calls a no-op changes nothing
-            if ops[i] in ("enable", "enable_again", "disable", "load_ext", "unload_ext") \
+            if ops[i] in ("enable", "enable_again", "disable", "load_ext", LOAD_NOFD, "unload_ext") \
                     and (en_before, pend_before) == (en_after, pend_after) and changed:
                 F("an op that does not change the enabled state changed patched attributes", i,
                   keys=sorted(changed)[:6])
@@ -556,6 +570,10 @@ class C14(Prop):
                     if n > 1:
                         F("a hook list holds more than one pyflyby entry", i, key=key, count=n,
                           names=sorted({t[3] for t in _pf_tokens(b)}))
+            # --- no accumulating residue outside the shell either: pyflyby's import finder (sys.meta_path) at most once
+            if st.get("n_meta_finders", 0) > 1:
+                F("sys.meta_path holds more than one pyflyby finder", i, count=st["n_meta_finders"],
+                  loads=sum(1 for o in ops[:i + 1] if o in ("load_ext", LOAD_NOFD, "reload_ext", "initialize_ext")))
             # --- third-party entries survive, untouched and in order, at every step
             fref = obs.get("fref")
             if fref is not None and fref[i] is not None:
@@ -673,6 +691,8 @@ class C14(Prop):
 
     def compare(self, case, obs, resps):
         cfg = case.get("config", "terminal")
+        if LOAD_NOFD in case["ops"] and not TREE["load_atomic"]:
+            return None         # see TREE["load_atomic"]
         _, marks = model_ops(cfg, case["ops"])
         msteps = [resps[0]["steps"][k] for k in marks]
         isteps = obs["steps"]
@@ -826,7 +846,38 @@ class C14(Prop):
             return set(failure.get("keys", [])) <= {"itm.cleanup_transforms", "ip.traits.ast_transformers"}
         return True
 
-    families = {"D3_reset_hook_leak": fam_d3.__func__, "embedded_new_importer_per_call": fam_embedded.__func__}
+    @staticmethod
+    def fam_meta_path(case, failure):
+        """C14-H1: one more DictFinder per executed load_ipython_extension, never more than that"""
+        return failure.get("what") == "sys.meta_path holds more than one pyflyby finder" \
+            and 1 < failure.get("count", 0) <= failure.get("loads", 0)
+
+    @staticmethod
+    def fam_load_not_atomic(case, failure):
+        """C14-H2: load_ext while sys.stderr has no fileno(): load_ipython_extension raises after enabling; IPython does not
+        record the extension, so from that step on `loaded` (and what unload/reload do) is off.  Only failures at or after
+        such a step, never wrapper depth / hook-list multiplicity."""
+        ops = case.get("ops", [])
+        if LOAD_NOFD not in ops or case.get("config") not in (None, "terminal"):
+            return False
+        first = ops.index(LOAD_NOFD)
+        if failure.get("step") is None or failure["step"] < first:
+            return False
+        w = failure.get("what", "")
+        if w == "an exception escaped a public entry point":
+            return failure.get("op") == LOAD_NOFD and "fileno" in (failure.get("escaped") or "")
+        return w in ("importer not DISABLED / disablers left while the reference machine is disabled",
+                     "pyflyby objects remain in the shell while the importer is disabled",
+                     "after disable a patched attribute is not back to its pre-enable value",
+                     "disabled, but the cell does not fail exactly as in plain IPython",
+                     "disabled, but completion differs from plain IPython",
+                     "an op that does not change the enabled state changed patched attributes",
+                     "importer not ENABLED while the reference machine is enabled",
+                     "enabled, but a cell reading a known name was not auto-imported",
+                     "enabled, but completion does not offer the known name")
+
+    families = {"D3_reset_hook_leak": fam_d3.__func__, "embedded_new_importer_per_call": fam_embedded.__func__,
+                "meta_path_finder_per_load": fam_meta_path.__func__, "load_ext_not_atomic": fam_load_not_atomic.__func__}
 
 
 def _short(tok):
